@@ -133,6 +133,30 @@ def _loadnames(n):
     return {x.id for x in ast.walk(n) if isinstance(x, ast.Name) and isinstance(x.ctx, ast.Load)}
 
 
+def _falsy_literal(e):
+    """`x or 0`, `x or ""`, `x or []`, `x or ()`: every falsy value maps to an equal (empty) value, so nothing is lost."""
+    if isinstance(e, ast.Constant):
+        return not e.value
+    return isinstance(e, (ast.List, ast.Tuple, ast.Dict)) and not (e.elts if not isinstance(e, ast.Dict) else e.keys)
+
+
+def _value_evidence(fn, name):
+    """The function treats `name` as a number, a string of data or an array (so 0 / 0.0 / "" / an empty array are VALUES of it):
+    it is compared with an order operator, used in arithmetic, used as an index, or handed to len / int / float / np.* ."""
+    for x in ast.walk(fn):
+        if isinstance(x, ast.Compare) and any(isinstance(o, (ast.Lt, ast.LtE, ast.Gt, ast.GtE)) for o in x.ops) \
+                and any(isinstance(n, ast.Name) and n.id == name for n in [x.left] + x.comparators):
+            return True
+        if isinstance(x, ast.BinOp) and any(isinstance(n, ast.Name) and n.id == name for n in (x.left, x.right)):
+            return True
+        if isinstance(x, ast.Subscript) and isinstance(x.slice, ast.Name) and x.slice.id == name:
+            return True
+        if isinstance(x, ast.Call) and (ast.unparse(x.func) in ("len", "int", "float", "range") or ast.unparse(x.func).startswith(("np.", "numpy.", "util.safe_np_int_cast"))) \
+                and any(isinstance(a, ast.Name) and a.id == name for a in x.args):
+            return True
+    return bool(re.search(r"(left|right|start|end|stop|position|time|index|offset|length|span|samples|windows|nodes|num_|_id$|^id$|ploidy|precision)", name))
+
+
 def py_function_lints(m, qn, fn):
     """[(kind, node, message)] for one function: late-binding closures, mutable defaults, swallowed exceptions, one-shot
     iterators consumed twice, `param or default` on a parameter whose falsy values are meaningful."""
@@ -226,7 +250,8 @@ def py_function_lints(m, qn, fn):
     for x in ast.walk(fn):
         if isinstance(x, ast.BoolOp) and isinstance(x.op, ast.Or) and isinstance(x.values[0], ast.Name) and x.values[0].id in dflt \
                 and isinstance(dflt[x.values[0].id], ast.Constant) and dflt[x.values[0].id].value is None \
-                and (qn, x.values[0].id) not in OR_DEFAULT_OK:
+                and (qn.split(".")[-1], x.values[0].id) not in OR_DEFAULT_OK and not _falsy_literal(x.values[1]) \
+                and _value_evidence(fn, x.values[0].id):
             out.append(("or-default", x, "`%s` treats every falsy value of the parameter `%s` (0, 0.0, \"\", an empty array) as missing; "
                         "only None means missing" % (ast.unparse(x)[:50], x.values[0].id)))
     # 6. a loop variable that the loop body never reads (the body then works on some OTHER variable, usually the outer one)
@@ -234,8 +259,16 @@ def py_function_lints(m, qn, fn):
         if isinstance(lp, ast.For):
             tg = {n.id for n in ast.walk(lp.target) if isinstance(n, ast.Name)}
             used = {n.id for s in lp.body + lp.orelse for n in ast.walk(s) if isinstance(n, ast.Name)}
+            outer = set()
+            q_ = lp
+            while q_ in par:
+                q_ = par[q_]
+                if isinstance(q_, ast.For):
+                    outer |= {n.id for n in ast.walk(q_.target) if isinstance(n, ast.Name)}
+            is_range = isinstance(lp.iter, ast.Call) and ast.unparse(lp.iter.func) == "range"
             for v in sorted(tg - used):
-                if not v.startswith("_"):
+                # `for _ in range(n)` style repetition is legitimate; the slip is a body that reads the ENCLOSING loop's variable instead
+                if not v.startswith("_") and not is_range and (used & outer):
                     out.append(("unused-loop-variable", lp, "the loop over `%s` never reads its variable `%s`" % (ast.unparse(lp.iter)[:40], v)))
     # 7. np.where(cond) / np.nonzero(cond) is a TUPLE of arrays: its len() is the number of dimensions and iterating it yields arrays
     def _is_where(c):
@@ -283,7 +316,10 @@ def py_function_lints(m, qn, fn):
         for t_ in tgts:
             if isinstance(t_, ast.Subscript) and isinstance(t_.value, ast.Name):
                 nm = t_.value.id
-                if _view(nm) or (nm in params and nm not in binds and nm not in ("self", "cls") and (qn, nm) not in INPLACE_OK):
+                # the parameter clause is limited to PUBLIC functions: a private helper that fills a buffer it is given is an idiom
+                if _view(nm) or (nm in params and nm not in binds and nm not in ("self", "cls") and not qn.split(".")[-1].startswith("_")
+                                 and not re.search(r"^(out|output|buffer|result|dest|memo|cache|kwargs)", nm)
+                                 and (qn.split(".")[-1], nm) not in INPLACE_OK):
                     out.append(("inplace-foreign", x, "`%s` writes into `%s`, which is %s; the owner's data changes under it" % (
                         ast.unparse(x)[:50], nm, "the caller's argument (never copied)" if nm in params else
                         "bound only to `%s` (a view, not a copy)" % ast.unparse(binds[nm][0]))))
@@ -300,18 +336,24 @@ def py_function_lints(m, qn, fn):
         if isinstance(x, (ast.ListComp, ast.SetComp)) and len(x.generators) == 1 and _trees_call(x.generators[0].iter) \
                 and isinstance(x.elt, ast.Name) and isinstance(x.generators[0].target, ast.Name) and x.elt.id == x.generators[0].target.id:
             out.append(("tree-reuse", x, "`%s` keeps references to the single Tree object that trees() updates in place" % ast.unparse(x)[:50]))
-    # 10. iteration order of a set is arbitrary: a loop / list over set(...) must not produce ordered output
-    for x in ast.walk(fn):
-        it = x.iter if isinstance(x, (ast.For, ast.comprehension)) else (x.args[0] if isinstance(x, ast.Call) and ast.unparse(x.func) in ("list", "tuple", "np.array", "enumerate") and x.args else None)
-        if it is not None and (isinstance(it, (ast.Set, ast.SetComp)) or (isinstance(it, ast.Call) and ast.unparse(it.func) in ("set", "frozenset"))):
-            if isinstance(x, ast.comprehension):
-                continue        # handled through the enclosing comprehension kind below
-            if qn.split(".")[-1] not in SET_ORDER_OK:
-                out.append(("set-order", x, "`%s` iterates a set: the order is arbitrary" % ast.unparse(it)[:40]))
-        if isinstance(x, (ast.ListComp, ast.GeneratorExp)) and any(
-                isinstance(g.iter, (ast.Set, ast.SetComp)) or (isinstance(g.iter, ast.Call) and ast.unparse(g.iter.func) in ("set", "frozenset")) for g in x.generators):
-            if qn.split(".")[-1] not in SET_ORDER_OK:
-                out.append(("set-order", x, "`%s` builds a sequence by iterating a set: the order is arbitrary" % ast.unparse(x)[:50]))
+    # 10. iteration order of a set is arbitrary: a SEQUENCE (list, tuple, array, joined string, yielded stream, appended list)
+    #     must not be built by iterating one.  Order-free consumers (sum, any, all, set, membership) are fine.
+    def _is_set(e):
+        return isinstance(e, (ast.Set, ast.SetComp)) or (isinstance(e, ast.Call) and ast.unparse(e.func) in ("set", "frozenset"))
+    if qn.split(".")[-1] not in SET_ORDER_OK:
+        for x in ast.walk(fn):
+            if isinstance(x, ast.Call) and ast.unparse(x.func) in ("list", "tuple", "np.array", "np.fromiter", "enumerate") and x.args and _is_set(x.args[0]):
+                out.append(("set-order", x, "`%s` turns a set into a sequence: the order is arbitrary" % ast.unparse(x)[:50]))
+            elif isinstance(x, ast.ListComp) and any(_is_set(g.iter) for g in x.generators):
+                out.append(("set-order", x, "`%s` builds a list by iterating a set: the order is arbitrary" % ast.unparse(x)[:50]))
+            elif isinstance(x, ast.GeneratorExp) and any(_is_set(g.iter) for g in x.generators) and isinstance(par.get(x), ast.Call) \
+                    and ast.unparse(par[x].func).split(".")[-1] in ("list", "tuple", "join", "array", "fromiter"):
+                out.append(("set-order", x, "`%s` builds a sequence by iterating a set: the order is arbitrary" % ast.unparse(par[x])[:50]))
+            elif isinstance(x, ast.For) and _is_set(x.iter) and any(
+                    isinstance(y, (ast.Yield, ast.YieldFrom)) or (isinstance(y, ast.Call) and isinstance(y.func, ast.Attribute)
+                                                                   and y.func.attr in ("append", "extend", "write", "add_row"))
+                    for s_ in x.body for y in ast.walk(s_)):
+                out.append(("set-order", x, "the loop over `%s` emits items in the set's arbitrary order" % ast.unparse(x.iter)[:40]))
     return out
 
 
